@@ -51,6 +51,8 @@ READ_ONLY_METHODS = {'get', 'items', 'keys', 'values', 'index', 'count', 'copy',
                      'isdisjoint', 'issubset', 'issuperset'}
 READ_ONLY_BUILTINS = {'len', 'enumerate', 'sorted', 'list', 'tuple', 'dict', 'set', 'frozenset', 'reversed', 'zip', 'iter', 'min',
                       'max', 'sum', 'any', 'all', 'bool', 'str', 'repr', 'isinstance'}
+ARG_READ_METHODS = {'join', 'isdisjoint', 'issubset', 'issuperset', 'union', 'intersection', 'difference', 'index', 'count', 'get',
+                    'startswith', 'endswith'}
 REFLECTIVE_CALLS = {'globals', 'vars', 'locals', 'exec', 'eval', 'compile', '__import__', 'delattr'}
 REFLECTIVE_ATTRS = {'__dict__', '__globals__', '__closure__', '__defaults__', '__kwdefaults__', '__code__', '__builtins__'}
 FUNC_NODES = (ast.FunctionDef, ast.AsyncFunctionDef, ast.Lambda)
@@ -404,6 +406,10 @@ class Census:
             return
         if isinstance(par, ast.Starred) or isinstance(par, ast.keyword) and par.arg is None:
             read()
+            return
+        if isinstance(par, ast.Call) and x in par.args and isinstance(par.func, ast.Attribute) and par.func.attr in ARG_READ_METHODS \
+                and entry['elements']:
+            read()            # ', '.join(TABLE), other.isdisjoint(TABLE): a method of ANOTHER object that only reads its argument
             return
         read()
         write('escapes (argument, return value, alias, comparison ...)')
